@@ -668,6 +668,22 @@ def c02(work, v, tier):
                     rands=[dict(module="Check_Render", fn="render", n=4000 if q else 40000, depth=3 if q else 4)])
 
 
+@check("C07")
+def c07(work, v, tier):
+    q = tier == "quick"
+    mp = 3 if q else 5
+    gens = [dict(module="Gen_Traverse", family="d1", fn="traverse", consts=dict(Width=3, MaxPath=3 if q else 4)),
+            dict(module="Gen_Traverse", family="d2", fn="traverse", consts=dict(Width=2, MaxPath=mp), timeout=3000),
+            dict(module="Gen_Traverse", family="d3", fn="traverse", consts=dict(Width=2, MaxPath=mp), timeout=3000)]
+    return sm_check(work, v, "C07", tier, [], [], [],
+                    ["Laws: for every generated tree and EVERY path, the recursive TraverseSpec equals the stepwise IndexDescent of the statement; the empty path fails"],
+                    "Traverse against spec/Traverse.tla. spec -> code: all trees of depth <= 3, width <= 2-3 (leaves, nil slots, nested stacks with their own "
+                    "negative / forward index options, alias and pointer forms, Conditions with leaf / Stack expressions) x ALL index paths of length "
+                    "0..3 (quick) / 0..5 (thorough) over -1..width+1; the value returned by the real Traverse is mapped back to a structural address by object "
+                    "identity and compared. code -> spec: random deeper / wider trees (Condition-in-Condition chains included) with random paths validated by Check_Traverse.tla",
+                    gens=gens, rands=[dict(module="Check_Traverse", fn="traverse", n=1500 if q else 15000, depth=3 if q else 4)])
+
+
 def replay(prop, path, work):
     harness = lib.build_harness(work)
     rc, out, _ = lib.run([harness, "replay", path], timeout=300)
